@@ -173,11 +173,18 @@ def pairErr (y : Yaml) : Option PyErr :=
   | .list _ => some .indexError
   | _ => some .typeError
 
-/-- a component as built by a factory: registered name and the bound keywords; nested components
-(chains, reducers, the visibility function of `from_visibility`) are components themselves -/
+/-- a component as built by a factory: registered name and the bound keywords *with the values given
+for them* (a value is carried verbatim: `0`, `0.0` and `false` are values like any other; what the
+reserved keys are converted to — shapes, areas, object types, nested functions — is outside this
+static description, their descriptions are kept); nested components (chains, reducers, the visibility
+function of `from_visibility`) are components themselves -/
 inductive Comp
-  | mk (name : String) (kws : List String) (subs : List Comp)
+  | mk (name : String) (kws : List (String × Yaml)) (subs : List Comp)
 deriving Repr, Inhabited
+
+/-- the bound keyword names -/
+def Comp.keys : Comp → List String
+  | .mk _ kws _ => kws.map (·.1)
 
 /-- `import_if_custom`: `module:name` is resolved outside the model -/
 def isCustom (name : String) : Bool := name.toList.any (· == ':')
@@ -247,14 +254,14 @@ def buildComp (r : Regs) : Nat → RegKind → Yaml → Except PyErr Comp
           | some c => okColors r c
           | none => true
         if !colorsOk then .error .schemaError else
-        if isCustom name then .ok (.mk name (rest.map (·.1)) (s1 ++ s2 ++ s3 ++ s4 ++ s5)) else
+        if isCustom name then .ok (.mk name rest (s1 ++ s2 ++ s3 ++ s4 ++ s5)) else
         match factoryCheck (r.of kind) name (rest.map (·.1)) with
         | .error e => .error e
         | .ok (_, sel) =>
           -- a nested component is part of what is built only if its key is one the function accepts
           -- (`select_kwargs` drops the others together with whatever was built for them)
           let keep (key : String) (l : List Comp) : List Comp := if sel.contains key then l else []
-          .ok (.mk name sel (keep "transition_functions" s1 ++ keep "reward_functions" s2 ++
+          .ok (.mk name (rest.filter fun kv => sel.contains kv.1) (keep "transition_functions" s1 ++ keep "reward_functions" s2 ++
             keep "terminating_functions" s3 ++ keep "reward_function" s4 ++ keep "visibility_function" s5))
       | _ => .error .schemaError
     | _ => .error .schemaError
